@@ -136,19 +136,24 @@ def hasBad : List Stmt → Bool
 
 /-! ## decompiler: label emission -/
 
-/-- `raise::Label` (`label_{offset}` or `label_{prev_offset}r`, with the time it must sit at) -/
+/-- name of an offset label: `label_{offset}` names the destination instruction,
+`label_{prev_offset}r` the instruction before it (indices instead of byte offsets here), and
+`label_startr` is the `r` label of the start of the script, which has no previous instruction -/
+inductive LabelName where
+  | dest (idx : Nat)
+  | before (idx : Nat)
+  | start
+deriving Repr, DecidableEq, Inhabited
+
+/-- `raise::Label`: name and the time it must sit at -/
 structure Label where
-  isR : Bool
-  /-- the number in the name: index of the instruction whose offset is printed (`label_{offset}`
-  names the destination, `label_{prev_offset}r` the instruction before it; at the start of the
-  script `prev_offset` is 0, the offset of instruction 0) -/
-  idx : Nat
+  name : LabelName
   time : Int32
 deriving Repr, DecidableEq, Inhabited
 
 /-- statements produced by the raiser, as far as time is concerned -/
 inductive Out where
-  | label (isR : Bool) (idx : Nat)
+  | label (name : LabelName)
   | abs (t : Int32)
   | rel (d : Int32)
   | instr
@@ -171,8 +176,8 @@ def emitLabels (prev time : Int32) (lab : Option Label) : Outcome (List Out) :=
   match lab with
   | none => .ok (emitTime prev time)
   | some l =>
-    if l.time = prev then .ok (.label l.isR l.idx :: emitTime prev time)
-    else if l.time = time then .ok (emitTime prev time ++ [.label l.isR l.idx])
+    if l.time = prev then .ok (.label l.name :: emitTime prev time)
+    else if l.time = time then .ok (emitTime prev time ++ [.label l.name])
     else .panic impossibleMsg
 
 /-- decompiling a plain time sequence (no jumps): labels then the instruction -/
@@ -197,14 +202,14 @@ def timesFrom (t : Int32) : List Out → List Int32
 def times (os : List Out) : List Int32 := timesFrom 0 os
 
 /-- times of the offset labels in a list of emitted statements -/
-def labelTimesFrom (t : Int32) : List Out → List (Bool × Nat × Int32)
+def labelTimesFrom (t : Int32) : List Out → List (LabelName × Int32)
   | [] => []
-  | .label r i :: os => (r, i, t) :: labelTimesFrom t os
+  | .label n :: os => (n, t) :: labelTimesFrom t os
   | o :: os => labelTimesFrom (stepOut t o) os
 
 /-- emitted statement as source statement (what the recompile sees) -/
 def Out.toStmt : Out → Stmt
-  | .label _ _ => .label
+  | .label _ => .label
   | .abs v => .abs v
   | .rel d => .rel d
   | .instr => .instr
@@ -222,7 +227,7 @@ deriving Repr, Inhabited
 defaulted to `next` -/
 def labelAt (prevIdx : Nat) (prev : Int32) (nextIdx : Nat) (next : Int32) (args : List Int32) : Label :=
   -- BTreeSet of the args has exactly one element and it is `prev`
-  if prev < next ∧ args ≠ [] ∧ args.all (· == prev) then ⟨true, prevIdx, prev⟩ else ⟨false, nextIdx, next⟩
+  if prev < next ∧ args ≠ [] ∧ args.all (· == prev) then ⟨.before prevIdx, prev⟩ else ⟨.dest nextIdx, next⟩
 
 def timeAt (is : List RInstr) (k : Nat) : Int32 :=
   match is[k]? with
@@ -244,11 +249,16 @@ def jumpArgs (is : List RInstr) (k : Nat) : List Int32 :=
     | some (dest, tm) => if dest = k then some (tm.getD (timeAt is k)) else none
     | none => none
 
+/-- the script start has no previous instruction: its `r` label (the one whose time is not the
+destination's) gets a name of its own, `label_startr` -/
+def renameStart (k : Nat) (destTime : Int32) (l : Label) : Label :=
+  if k = 0 ∧ l.time ≠ destTime then { l with name := .start } else l
+
 /-- `generate_offset_labels` for one offset -/
 def labelFor (is : List RInstr) (k : Nat) : Option Label :=
   match jumpArgs is k with
   | [] => none
-  | args => some (labelAt (k - 1) (prevTimeAt is k) k (timeAt is k) args)
+  | args => some (renameStart k (timeAt is k) (labelAt (k - 1) (prevTimeAt is k) k (timeAt is k) args))
 
 def badOffsetMsg : String := "an instruction has a bad jump offset!"
 
